@@ -17,6 +17,7 @@ import (
 
 	"github.com/EliCDavis/polyform/formats/stl"
 	"github.com/EliCDavis/polyform/modeling"
+	"github.com/EliCDavis/polyform/nodes"
 	"pgregory.net/rapid"
 
 	"verifharness/internal/gen"
@@ -399,6 +400,17 @@ func runMesh(c MeshCase, o *vh.Obs) *vh.Failure {
 	}
 	if f := checkReadMesh(*back, p, "readmesh"); f != nil {
 		return f
+	}
+	// the graph's STL read node is the same decoder applied to a byte parameter
+	if len(b) > 0 {
+		var nm modeling.Mesh
+		var nerr error
+		if kind, val := oracle.Try(func() { nm, nerr = (stl.ReadNodeData{Data: nodes.Value(b).Out()}).Process() }); kind != "" {
+			return vh.Failf("readnode-panic-"+kind, "stl.ReadNode panicked on WriteMesh output: %v", val)
+		}
+		if nerr != nil || oracle.Snapshot(nm) != oracle.Snapshot(*back) {
+			return vh.Failf("readnode-differs", "stl.ReadNode on WriteMesh output (err %v) gives a different mesh than ReadMesh", nerr)
+		}
 	}
 	if hasNrm && back.HasFloat3Attribute(modeling.NormalAttribute) {
 		bn, bi := back.Float3Attribute(modeling.NormalAttribute), back.Indices()
